@@ -2,8 +2,9 @@
 
 Pipeline: C18_Gen / C18_GenRand (TLC: enumerate blade pairs / triples / unary
 inputs / multi-term homogeneous multivectors / small and random multivectors /
-construction recipes with numeric and expression-tree coefficients / random operator
-programs, and model check the M-layer axioms and "bitmap algorithm refines the
+construction recipes with numeric and expression-tree coefficients / histories on one
+object (operands observed after every step, then ==/hash/bool/get_pure_grade/inv of
+the used objects against never used twins) / random operator programs, and model check the M-layer axioms and "bitmap algorithm refines the
 meaning") -> drive (real Space / MultiVector objects) -> C18_Judge (TLC judges
 every recorded result against the index-list blade algebra of C18_Clifford).
 
@@ -484,7 +485,83 @@ def _drive_symeq(c):
     return o, 13
 
 
-_DRIVERS = {"symeq": _drive_symeq, "sym": _drive_sym, "pair": _drive_pair, "triple": _drive_triple, "unary": _drive_unary,
+def _hist_step(st, a, b, q):
+    """One step of a history: the live objects a, b (and the bare scalar q) are operands."""
+    if st == "add":
+        return a + b
+    if st == "radd":
+        return b + a
+    if st == "sub":
+        return a - b
+    if st == "rsub":
+        return b - a
+    if st == "sadd":
+        return q + a
+    if st == "adds":
+        return a + q
+    if st == "ssub":
+        return q - a
+    if st in OPS:
+        return _apply(st, a, b)
+    if st == "x":
+        return a.x(b)
+    if st == "neg":
+        return -a
+    if st == "rev":
+        return a.rev()
+    if st == "invol":
+        return a.invol()
+    if st == "dual":
+        return a.dual()
+    if st == "eq":
+        return a == b
+    if st == "hash":
+        hash(a)
+        hash(b)
+        return True
+    if st == "bool":
+        return bool(a)
+    raise ValueError(st)
+
+
+def _drive_hist(c):
+    """A history on ONE object: a and b are built once, used as operands of every step
+    (their stored data is recorded after each step), and are then asked ==, !=, hash,
+    bool, get_pure_grade, inv() against twins built separately and never used."""
+    sp = _space(c["n"], c["g"])
+    a, b = _mv_t(c["a"], sp), _mv_t(c["b"], sp)
+    twins = [_mv_t(c["a"], sp), _mv_t(c["b"], sp)]
+    q = _coef(c["q"])
+    o = {"s0": [_ser(a), _ser(b)], "st": []}
+    for st in c["steps"]:
+        r = _call(lambda st=st: _hist_step(st, a, b, q))
+        o["st"].append({"r": r, "a": _ser(a), "b": _ser(b)})
+
+    def grade(m):
+        try:
+            pg = m.get_pure_grade()
+        except Exception:  # noqa: BLE001
+            return -2
+        return -1 if pg is None else int(pg)
+
+    def after(m, tw):
+        inv, sinv = _raw(lambda: m.inv())
+        return {
+            "eq": _b01(lambda: m == tw), "eqr": _b01(lambda: tw == m),
+            "ne": _b01(lambda: m != tw), "ner": _b01(lambda: tw != m),
+            "he": _b01(lambda: hash(m) == hash(tw)),
+            "bo": _b01(lambda: bool(m)), "pg": grade(m),
+            "inv": sinv,
+            "inv_m": _call(lambda: inv * m) if inv is not None else sinv,
+            "m_inv": _call(lambda: m * inv) if inv is not None else sinv,
+            "d": _ser(m),
+        }
+    o["oa"] = after(a, twins[0])
+    o["ob"] = after(b, twins[1])
+    return o, len(c["steps"]) + 20
+
+
+_DRIVERS = {"hist": _drive_hist, "symeq": _drive_symeq, "sym": _drive_sym, "pair": _drive_pair, "triple": _drive_triple, "unary": _drive_unary,
             "bilin": _drive_bilin, "eq": _drive_eq, "prog": _drive_prog}
 
 
@@ -529,6 +606,8 @@ def signature(case, verdict, fail):
         sig["grades"] = _terms_grades(c["a"])
     elif k == "symeq":
         sig["coefs"] = sorted(_tree_kinds(c["ra"]["ts"]) | _tree_kinds(c["rb"]["ts"]))
+    elif k == "hist":
+        sig["steps"] = list(c["steps"])
     elif k == "eq":
         sig["why"] = fail.get("w", "none")
         if sig["why"] == "none":
@@ -543,7 +622,7 @@ def _judge(recs, wd, out, tag):
         bykind.setdefault(r["c"]["k"], []).append(r)
     shards = []
     for k, rs in sorted(bykind.items()):
-        target = {"bilin": 1200, "prog": 3000, "unary": 4500, "eq": 8000, "sym": 2000, "symeq": 4000}.get(k, 25000)
+        target = {"bilin": 1200, "prog": 3000, "unary": 4500, "eq": 8000, "sym": 2000, "symeq": 4000, "hist": 4000}.get(k, 25000)
         # balanced shards, in multiples of the 4 JVMs that judge concurrently
         nsh = -(-len(rs) // target)
         if nsh > 2:
@@ -584,11 +663,11 @@ def _nontrivial(c):
     return True
 
 
-BUGS = ["crs", "metric", "inner", "inv", "eq", "lc", "rev", "prune"]
-QUICK_BUGS = BUGS[:5]
+BUGS = ["crs", "metric", "inner", "inv", "eq", "add", "lc", "rev", "prune"]
+QUICK_BUGS = BUGS[:6]
 # thorough tier: the exhaustive space is generated in slices (kind, number of slices)
 THOROUGH_SLICES = [("pair", 12), ("triple", 6), ("unary", 2), ("homog", 2), ("bilin", 1), ("eq", 1),
-                   ("sym", 1), ("symeq", 1)]
+                   ("sym", 1), ("symeq", 1), ("hist", 1)]
 
 
 def _cases_of(res):
@@ -717,7 +796,10 @@ def run(tier, seed, out):
                 "a listed subset of metrics), every basis blade x 2-5 coefficients and a pool of multi-term "
                 "multivectors and every 2-3-element set of basis blades of one grade (kind homog) for the unary "
                 "operations, pool^3 x scalar pairs for bilinearity, pairs of construction recipes for "
-                "==/hash/bool with numeric and with expression-tree coefficients (twins built separately), and draws random multivectors / operator programs "
+                "==/hash/bool with numeric and with expression-tree coefficients (twins built separately), histories on one "
+                "object (kind hist: a, b used as operands of 1-2 steps - sums with each other and with bare scalars, "
+                "products, unary operations, comparisons - stored data observed after every step, then ==/!=/hash/bool/"
+                "get_pure_grade/inv of the used objects against never used twins), and draws random multivectors / operator programs "
                 "with -simulate (C18_GenRand, seeded); one case = one record judged by C18_Judge clause by "
                 "clause; non-trivial = at least one operand of grade >= 1 (pairs: grades sum >= 2); distinct "
                 "by canonical JSON digest of the case")
@@ -733,6 +815,9 @@ def run(tier, seed, out):
         "points (x+y / y+x) is not decided (skipped); its symmetry, negation and hash consistency are",
         "a bitmap-keyed data dict with an explicit zero coefficient is ill-formed input: its ==/hash/bool "
         "clauses are skipped",
+        "operands are values: an operation must leave the stored coefficient data of its operands denoting the same "
+        "multivector and without new explicitly stored zeros (these are what ==, hash, bool, get_pure_grade, inv "
+        "of the class read)",
     ]
 
 
